@@ -46,6 +46,24 @@ def rule_reset(R):
     R.ob("reset/reader-fields", oknone,
          "the reader reset unconditionally forgets a partially received packet: read_bytes = 0 and packet_length = None",
          where=rr.span)
+    # every piece of receive progress the reader keeps (any field but the borrowed buffer) is forgotten by the reset:
+    # a field added later (cached header progress, a cursor) that survives the reset carries a partial packet over
+    adt = f.adts.get(READER)
+    if adt is None:
+        raise AnchorLost("PacketReader-adt")
+    nf = 0
+    for fld in adt["variants"][0]["fields"]:
+        if fld["ty"].startswith("&"):
+            continue
+        nf += 1
+        sb = [bb for (bb, j, dst, rv, s) in rr.stores() if bb in rr.reachable and
+              [e for e in dst["proj"] if isinstance(e, dict) and "f" in e][-1:] and
+              [e for e in dst["proj"] if isinstance(e, dict) and "f" in e][0]["name"] == fld["name"]]
+        okf = bool(sb) and rr.must_pass([0], rr.returns, via_blocks=sb)[0]
+        R.ob("reset/reader-field/%s" % fld["name"], okf,
+             "the reader reset re-initialises `%s` on every path (all receive progress is forgotten, whatever fields hold it)" % fld["name"],
+             where=rr.span)
+    R.floor("reset/reader-field", nf, 2, "progress fields of PacketReader")
     # transport-timer reset: RuntimeState method storing None into both deadlines
     tr = [b for b in f.bodies.values() if b.kind == "assoc_fn" and roles.self_is(b, RUNTIME) and b.arg_count == 1
           and any(v[0] == "agg" and v[3] == "None" for v in stores_of(b, RUNTIME, "next_ping"))
